@@ -360,7 +360,7 @@ fn seqlines_adaptors(r: &seq_io::fasta::RefRecord, expected: &[Vec<u8>], fail: &
 
 pub fn c20(tier: Tier) -> i32 {
     // FASTA records with m = 0..M sequence lines from a line menu (incl. empty lines, CR inside)
-    let max_lines = if tier == Tier::Quick { 4 } else { 6 };
+    let max_lines = if tier == Tier::Quick { 4 } else { 7 };
     let menu: [&[u8]; 4] = [b"x", b"", b"xy", b"x\ry"];
     let mut inputs: Vec<(Vec<u8>, usize)> = vec![];
     for m in 0..=max_lines {
